@@ -101,14 +101,109 @@ class Ref:
         return hash(self.name)
 
 
-class PyIter:
-    """an iterator over already known items (shared position)"""
+_STDLIB_CONSTANTS = {(m_, n_): v_ for m_ in ('io', 'os') for n_, v_ in (('SEEK_SET', 0), ('SEEK_CUR', 1), ('SEEK_END', 2))}
 
-    def __init__(self, items):
+
+class _GenExit(BaseException):
+    pass
+
+
+class _GenRun:
+    """the body of a generator function, run in a thread of its own under strict hand-over: the consumer asks for an item and waits; the
+    body runs up to its next yield (or its end, or an exception, which arrives at the consumer) and waits"""
+
+    def __init__(self, interp, body, env, cls):
+        import threading
+        self.interp, self.body, self.env, self.cls = interp, body, env, cls
+        self.req, self.rsp = threading.Semaphore(0), threading.Semaphore(0)
+        self.item, self.finished, self.exc, self.closed, self.thread = None, False, None, False, None
+
+    def _main(self):
+        self.req.acquire()
+        try:
+            if not self.closed:
+                self.env['#emit'] = self._emit
+                self.interp.run(self.body, self.env, self.cls)
+        except _GenExit:
+            pass
+        except BaseException as e:      # pylint: disable=broad-except
+            self.exc = e
+        self.finished = True
+        self.rsp.release()
+
+    def _emit(self, v):
+        self.item = v
+        self.rsp.release()
+        self.req.acquire()
+        if self.closed:
+            raise _GenExit()
+
+    def producer(self):
+        import threading
+        if self.finished:
+            return (False, None)
+        if self.thread is None:
+            threading.stack_size(256 * 1024 * 1024)
+            self.thread = threading.Thread(target=self._main, daemon=True)
+            self.thread.start()
+        depth_ = self.interp.h.depth
+        self.req.release()
+        self.rsp.acquire()
+        self.interp.h.depth = depth_
+        if self.exc is not None:
+            e, self.exc = self.exc, None
+            raise e
+        if self.finished:
+            return (False, None)
+        return (True, self.item)
+
+    def close(self):
+        if self.thread is not None and not self.finished and not self.closed:
+            self.closed = True
+            self.req.release()
+        self.closed = True
+
+
+class PyIter:
+    """an iterator (shared position) over items that are already known, or that a producer hands out one at a time when they are asked
+    for (iter(callable, sentinel), a generator: what producing an item does happens when the item is taken, not before)"""
+
+    def __init__(self, items, producer=None, owner=None):
         self.items, self.pos = list(items), 0
+        self.producer = producer          # () -> (True, item) | (False, None)
+        self.done = producer is None
+        self.owner = owner
+
+    def __del__(self):
+        if self.owner is not None:
+            try:
+                self.owner.close()
+            except Exception:      # pylint: disable=broad-except
+                pass
+
+    def has_next(self):
+        while self.pos >= len(self.items) and not self.done:
+            ok, x = self.producer()
+            if ok:
+                self.items.append(x)
+            else:
+                self.done = True
+            if len(self.items) > 100000:
+                raise AnalysisError('heap model: an iterator does not end')
+        return self.pos < len(self.items)
+
+    def take(self):
+        self.pos += 1
+        return self.items[self.pos - 1]
+
+    def drain(self):
+        out = []
+        while self.has_next():
+            out.append(self.take())
+        return out
 
     def __repr__(self):
-        return 'PyIter(%d/%d)' % (self.pos, len(self.items))
+        return 'PyIter(%d/%d%s)' % (self.pos, len(self.items), '' if self.done else '+')
 
 
 class Closure:
@@ -411,9 +506,7 @@ class Interp:
         if isinstance(v, (list, tuple)):
             return list(v)
         if isinstance(v, PyIter):
-            rest = v.items[v.pos:]
-            v.pos = len(v.items)
-            return rest
+            return v.drain()
         if isinstance(v, str):
             return list(v)              # a text iterates over its characters
         if isinstance(v, (set, frozenset)):
@@ -483,6 +576,11 @@ class Interp:
                 if p not in env:
                     raise AnalysisError('heap model: missing argument %s of %s' % (p, node.name))
             is_gen = any(isinstance(x, (ast.Yield, ast.YieldFrom)) for x in _walk_fn(node))
+            if is_gen and getattr(h, 'lazy_generators', True):
+                # a generator function: nothing of its body runs now; each item is computed when it is asked for (the body runs in a
+                # thread of its own that is resumed for one item at a time -- strict hand-over, never two at once)
+                g_ = _GenRun(self, node.body, env, fn.cls)
+                return PyIter([], g_.producer, g_)
             if is_gen:
                 env['#yields'] = []
             r = self.run(node.body, env, fn.cls)
@@ -628,6 +726,19 @@ class Interp:
                         return x
                     v = _as_text(v)
                 return h.new_list(list(v)) if isinstance(v, list) else v
+            for mod_ in (h.module.mods if hasattr(h.module, 'mods') else [h.module]):
+                node_ = mod_.const_nodes.get('', {}).get(e.id)
+                # a module-level tuple / list of names of other module-level objects (a table of compiled patterns, of functions)
+                if isinstance(node_, (ast.Tuple, ast.List)) and node_.elts and all(isinstance(x_, (ast.Name, ast.Constant)) for x_ in node_.elts) \
+                        and any(isinstance(x_, ast.Name) for x_ in node_.elts) and not any(isinstance(x_, ast.Name) and x_.id == e.id for x_ in node_.elts):
+                    vals_ = [self.ev(x_, {}, None) for x_ in node_.elts]
+                    return tuple(vals_) if isinstance(node_, ast.Tuple) else h.new_list(vals_)
+                tree_ = getattr(mod_, 'tree', None)
+                for st_ in (tree_.body if tree_ is not None else []):
+                    if isinstance(st_, ast.ImportFrom):
+                        for a_ in st_.names:
+                            if (a_.asname or a_.name) == e.id and (st_.module, a_.name) in _STDLIB_CONSTANTS:
+                                return _STDLIB_CONSTANTS[(st_.module, a_.name)]          # a constant of the standard library
             if e.id in ('tuple', 'str', 'int', 'list', 'dict', 'bytes', 'set', 'frozenset') or (e.id[:1].isupper() and e.id not in env):
                 return ('class', e.id)
             if e.id in ('len', 'repr', 'ord', 'chr', 'bool', 'sorted', 'min', 'max', 'any', 'all', 'enumerate', 'reversed') and e.id not in h.hooks:
@@ -639,6 +750,9 @@ class Interp:
                 for st_ in (tree_.body if tree_ is not None else []):
                     for n_ in ([st_] if isinstance(st_, ast.ImportFrom) else [x for x in ast.walk(st_) if isinstance(x, ast.ImportFrom)] if isinstance(st_, (ast.Try, ast.If)) else []):
                         if any((a_.asname or a_.name) == e.id for a_ in n_.names):
+                            orig_ = next(a_.name for a_ in n_.names if (a_.asname or a_.name) == e.id)
+                            if (n_.module, orig_) in _STDLIB_CONSTANTS:
+                                return _STDLIB_CONSTANTS[(n_.module, orig_)]          # a constant of the standard library
                             return ('extern', '%s.%s' % (n_.module, e.id))
             raise AnalysisError('heap model: unbound name %s' % e.id)
         if isinstance(e, ast.Attribute) and isinstance(e.value, ast.Name) and e.value.id == 'string' and 'string' not in env:
@@ -1061,14 +1175,11 @@ class Interp:
                 # drops it, dropwhile hands it out) and the rest stays in the iterator for whoever reads it next
                 it_ = args[1]
                 taken_ = []
-                while it_.pos < len(it_.items):
-                    x_ = it_.items[it_.pos]
-                    it_.pos += 1
+                while it_.has_next():
+                    x_ = it_.take()
                     if not self.truth(self.apply(args[0], [x_])):
                         if norm(fn).endswith('dropwhile'):
-                            rest_ = [x_] + it_.items[it_.pos:]
-                            it_.pos = len(it_.items)
-                            return rest_
+                            return [x_] + it_.drain()
                         return taken_
                     taken_.append(x_)
                 return taken_ if norm(fn).endswith('takewhile') else []
@@ -1325,9 +1436,8 @@ class Interp:
         if isinstance(fn, ast.Name) and fn.id == 'next' and args:
             if isinstance(args[0], PyIter):
                 itr = args[0]
-                if itr.pos < len(itr.items):
-                    itr.pos += 1
-                    return itr.items[itr.pos - 1]
+                if itr.has_next():
+                    return itr.take()
                 if len(args) > 1:
                     return args[1]
                 raise Raised('StopIteration', h.version, e.lineno)
@@ -1351,14 +1461,14 @@ class Interp:
                 c0 = r0.concrete()
                 return c0 if c0 is not None else r0
         if isinstance(fn, ast.Name) and fn.id == 'iter' and len(args) == 2 and 'iter' not in env:
-            # iter(callable, sentinel): the results of the calls up to the first one that equals the sentinel
-            out_ = []
-            for _k in range(10000):
-                r_ = self.apply(args[0], [])
-                if self.same_value(r_, args[1]):
-                    return h.new_list(out_)
-                out_.append(r_)
-            raise AnalysisError('heap model: iter(callable, sentinel) does not end')
+            # iter(callable, sentinel): the results of the calls up to the first one that equals the sentinel -- each call is made when
+            # its item is asked for (a loop that breaks leaves the later calls unmade)
+            fn_, sentinel_ = args[0], args[1]
+
+            def producer(fn_=fn_, sentinel_=sentinel_):
+                r_ = self.apply(fn_, [])
+                return (False, None) if self.same_value(r_, sentinel_) else (True, r_)
+            return PyIter([], producer)
         if isinstance(fn, ast.Name) and fn.id in ('list', 'tuple', 'iter') and len(args) == 1:
             if fn.id == 'iter' and isinstance(args[0], PyIter):
                 return args[0]              # iter() of an iterator is the iterator
@@ -1594,6 +1704,8 @@ class Interp:
                 return h.new_list(r)
             return r
         if isinstance(f, tuple) and len(f) == 3 and f[0] == 'structmethod':
+            return self.apply(f, args, kwargs)
+        if isinstance(f, Ref) and h.objs[f.name]['__class__'] in h.module.classes and h.module.method(h.objs[f.name]['__class__'], '__call__') is not None:
             return self.apply(f, args, kwargs)
         if isinstance(f, tuple) and len(f) == 3 and f[0] == 'boundmethod' and not (isinstance(fn, ast.Attribute) and fn.attr == f[2]):
             return self.apply(f, args, kwargs)
@@ -1868,6 +1980,10 @@ class Interp:
                 return self.sym_method(symstr.lift(f[1]), f[2], list(args), kwargs, None)
             r = getattr(f[1], f[2])(*args, **kwargs)
             return h.new_list(r) if isinstance(r, list) else r
+        if isinstance(f, Ref) and h.objs[f.name]['__class__'] in h.module.classes:
+            cm_ = h.module.method(h.objs[f.name]['__class__'], '__call__')
+            if cm_ is not None:
+                return self.call(Closure(cm_.node, {}, f, cm_.cls), list(args), kwargs)          # an object of a class with __call__
         raise AnalysisError('heap model: cannot call %r' % (f,))
 
     # -- symbolic strings -------------------------------------------------------------------------------
@@ -2024,10 +2140,23 @@ class Interp:
     def exec(self, st, env, cls):
         h = self.h
         if isinstance(st, ast.Expr) and isinstance(st.value, ast.Yield):
-            env['#yields'].append(self.ev(st.value.value, env, cls) if st.value.value is not None else None)
+            v_ = self.ev(st.value.value, env, cls) if st.value.value is not None else None
+            if '#emit' in env:
+                env['#emit'](v_)
+            else:
+                env['#yields'].append(v_)
             return None
         if isinstance(st, ast.Expr) and isinstance(st.value, ast.YieldFrom):
-            env['#yields'].extend(self.seq(self.ev(st.value.value, env, cls)))
+            src_ = self.ev(st.value.value, env, cls)
+            if '#emit' in env:
+                if isinstance(src_, PyIter):
+                    while src_.has_next():
+                        env['#emit'](src_.take())
+                else:
+                    for v_ in self.seq(src_):
+                        env['#emit'](v_)
+            else:
+                env['#yields'].extend(self.seq(src_))
             return None
         if isinstance(st, ast.Expr):
             if isinstance(st.value, ast.Constant):
@@ -2192,9 +2321,8 @@ class Interp:
             itv = self.ev(st.iter, env, cls)
             if isinstance(itv, PyIter):
                 def pull(itv=itv):
-                    while itv.pos < len(itv.items):
-                        itv.pos += 1
-                        yield itv.items[itv.pos - 1]
+                    while itv.has_next():
+                        yield itv.take()
                 items = pull()
             elif self.h.is_list(itv):
                 # a list is iterated by position over its *current* content (Python's list iterator): a body that removes or
